@@ -507,6 +507,59 @@ mut("c11-stateless-memo", "C11", "sequence.go",
     "var lastIndex *suffixarray.Index\n\nfunc bytesIndexAll(s, sep []byte) []int {\n\tindex := suffixarray.New(s)\n\tlastIndex = index\n",
     ["STATELESS|gts.bytesIndexAll|lastIndex"])
 
+# ---------------------------------------------------------------- round-4 rules
+mut("c03-kind-complement-unwrapped", "C03", "location.go",
+    "\tcase Ordered:\n\t\tfor i, u := range v {\n\t\t\tv[i] = asComplete(u)\n\t\t}\n\t\treturn v\n\tdefault:",
+    "\tcase Ordered:\n\t\tfor i, u := range v {\n\t\t\tv[i] = asComplete(u)\n\t\t}\n\t\treturn v\n\tcase Complemented:\n\t\treturn asComplete(v.Location)\n\tdefault:",
+    ["KIND-PRESERVE|gts.asComplete|case=Complemented"])
+mut("c03-kind-silent-complement-rewrapped", "C03", "location.go",
+    "\tcase Ordered:\n\t\tfor i, u := range v {\n\t\t\tv[i] = asComplete(u)\n\t\t}\n\t\treturn v\n\tdefault:",
+    "\tcase Ordered:\n\t\tfor i, u := range v {\n\t\t\tv[i] = asComplete(u)\n\t\t}\n\t\treturn v\n\tcase Complemented:\n\t\treturn Complemented{asComplete(v.Location)}\n\tdefault:",
+    silent=True, note="looking through the wrapper and putting it back keeps the kind")
+mut("c10-complete-in-delete", "C10", "sequence.go",
+    "\t\tf.Loc = f.Loc.Expand(offset, -length)\n\t\tff[i] = f\n",
+    "\t\tf.Loc = f.Loc.Expand(offset, -length)\n\t\tif f.Key == \"source\" {\n\t\t\tf.Loc = asComplete(f.Loc)\n\t\t}\n\t\tff[i] = f\n",
+    ["COMPLETE-ONLY-SLICE|gts.asComplete|caller=gts.Delete"])
+mut("c03-normalise-info-first", "C03", "sequence.go",
+    "\tseqlen := Len(seq)\n\tif start < 0 {\n\t\tstart += seqlen\n\t}\n",
+    "\tseqlen := Len(seq)\n\tmeta := trySlice(seq.Info(), start, end)\n\t_ = meta\n\tif start < 0 {\n\t\tstart += seqlen\n\t}\n",
+    ["NORMALISE-FIRST|gts.Slice|start", "NORMALISE-FIRST|gts.Slice|end"])
+mut("c03-normalise-silent-swapped", "C03", "sequence.go",
+    "\tif start < 0 {\n\t\tstart += seqlen\n\t}\n\n\tif end < 0 {\n\t\tend += seqlen\n\t}\n",
+    "\tif end < 0 {\n\t\tend += seqlen\n\t}\n\n\tif start < 0 {\n\t\tstart += seqlen\n\t}\n",
+    silent=True, note="the two canonicalisations are independent")
+mut("c04-reorder-sorted-parts", "C04", "location.go",
+    "\tfor i, l := range joined {\n\t\tll[i] = l.Normalize(length)\n\t}\n\treturn Join(ll...)",
+    "\tfor i, l := range joined {\n\t\tll[i] = l.Normalize(length)\n\t}\n\tsortLocations(ll)\n\treturn Join(ll...)",
+    ["NO-REORDER|gts.Joined.Normalize"], old2="// LocationLess tests if location a is less than b.\n", new2="func sortLocations(ll []Location) {\n\tfor i := 1; i < len(ll); i++ {\n\t\tfor j := i; j > 0 && LocationLess(ll[j], ll[j-1]); j-- {\n\t\t\tll[j], ll[j-1] = ll[j-1], ll[j]\n\t\t}\n\t}\n}\n\n// LocationLess tests if location a is less than b.\n")
+mut("c04-reorder-silent-converted", "C04", "location.go",
+    "\tfor i, l := range joined {\n\t\tll[i] = l.Normalize(length)\n\t}\n\treturn Join(ll...)",
+    "\tfor i, l := range joined {\n\t\tll[i] = l.Normalize(length)\n\t}\n\tparts := []Location(ll)\n\treturn Join(parts...)",
+    silent=True)
+mut("c19-quant-within-any", "C19", "location.go",
+    "\t\tfor _, l := range v.slice() {\n\t\t\tif !LocationWithin(l, lower, upper) {\n\t\t\t\treturn false\n\t\t\t}\n\t\t}\n\t\treturn true",
+    "\t\tfor _, l := range v.slice() {\n\t\t\tif LocationWithin(l, lower, upper) {\n\t\t\t\treturn true\n\t\t\t}\n\t\t}\n\t\treturn false",
+    ["QUANT-ALL|gts.LocationWithin|parts"])
+mut("c19-quant-overlap-tail", "C19", "location.go",
+    "\t\tfor _, l := range v.slice() {\n\t\t\tif LocationOverlap(l, lower, upper) {",
+    "\t\tfor _, l := range v.slice()[1:] {\n\t\t\tif LocationOverlap(l, lower, upper) {",
+    ["QUANT-ALL|gts.LocationOverlap|parts"])
+mut("c19-quant-silent-index-loop", "C19", "location.go",
+    "\t\tfor _, l := range v.slice() {\n\t\t\tif LocationOverlap(l, lower, upper) {",
+    "\t\tparts := v.slice()\n\t\tfor i := range parts {\n\t\t\tl := parts[i]\n\t\t\tif LocationOverlap(l, lower, upper) {",
+    silent=True)
+mut("c06-print-one-base-return", "C06", "location.go",
+    "\tb.WriteString(strconv.Itoa(ranged.Start + 1))\n\tb.WriteString(\"..\")",
+    "\tb.WriteString(strconv.Itoa(ranged.Start + 1))\n\tif ranged.Len() == 1 {\n\t\treturn b.String()\n\t}\n\tb.WriteString(\"..\")",
+    ["PRINT-TOTAL|gts.Ranged.String"])
+mut("c17-slice-region-early-return", "C17", "seqio/genbank.go",
+    "\tgbf.Region = gts.Segment{start, end}\n",
+    "\tif len(gbf.References) == 0 {\n\t\treturn gbf\n\t}\n\tgbf.Region = gts.Segment{start, end}\n",
+    ["SLICE-REGION|seqio.GenBankFields.Slice"])
+mut("c08-dedup-head-tail-len", "C08", "cmd/gts/extract.go",
+    "reflect.DeepEqual(rr[i], r)", "rr[i].Head() == r.Head() && rr[i].Tail() == r.Tail() && rr[i].Len() == r.Len()",
+    ["DEDUP-EXACT|main.containsRegion"], old2='\t"reflect"\n', new2="")
+
 if __name__ == "__main__":
     here = os.path.dirname(os.path.abspath(__file__))
     ids = [m["id"] for m in M]
